@@ -7,6 +7,7 @@ model or is called natively on concrete arguments.  Exploration is exhaustive wi
 ends when the root of the decision tree is exhausted; loops beyond their bound raise BoundExceeded and
 unsupported constructs raise Unsupported - both end the run inconclusive, never as a pass."""
 import hashlib
+import os
 import threading
 import ast
 import builtins
@@ -90,6 +91,30 @@ BIN = {ast.Add: operator.add, ast.Sub: operator.sub, ast.Mult: operator.mul, ast
        ast.BitAnd: operator.and_, ast.BitOr: operator.or_, ast.BitXor: operator.xor,
        ast.LShift: operator.lshift, ast.RShift: operator.rshift}
 CMP = {ast.Lt: operator.lt, ast.LtE: operator.le, ast.Gt: operator.gt, ast.GtE: operator.ge}
+
+
+
+def _real_world():
+    import builtins
+    import shutil
+    import subprocess
+    import tempfile
+    out = {builtins.open}
+    for name in ('open', 'fdopen', 'write', 'remove', 'unlink', 'rename', 'renames', 'replace', 'mkdir', 'makedirs', 'rmdir',
+                 'removedirs', 'truncate', 'ftruncate', 'chmod', 'fchmod', 'chown', 'link', 'symlink', 'utime', 'kill', 'system',
+                 'fork', '_exit', 'popen', 'execv', 'execve', 'execvp', 'spawnv', 'mkfifo', 'chdir', 'putenv', 'unsetenv'):
+        f = getattr(os, name, None)
+        if f is not None:
+            out.add(f)
+    for mod, names in ((shutil, ('copy', 'copy2', 'copyfile', 'copytree', 'move', 'rmtree', 'copymode', 'copystat')),
+                       (subprocess, ('run', 'call', 'check_call', 'check_output', 'Popen')),
+                       (tempfile, ('mkstemp', 'mkdtemp', 'NamedTemporaryFile', 'TemporaryFile', 'TemporaryDirectory'))):
+        for name in names:
+            out.add(getattr(mod, name))
+    return frozenset(out)
+
+
+REAL_WORLD = _real_world()
 
 
 class VM:
@@ -989,6 +1014,13 @@ class VM:
         if fn in TEXT_ONLY and (any(isinstance(a, SymText) for a in args) or deep_sym(args)):
             return SymText(list(args))
         if not deep_sym(args) and not deep_sym(kwargs):
+            try:
+                real_world = fn in REAL_WORLD
+            except TypeError:
+                real_world = False
+            if real_world:
+                # never let the code under analysis touch the real file system / processes: a harness must model these
+                raise Unsupported(f'call of {getattr(fn, "__qualname__", repr(fn))} (acts on the real system; no model registered)')
             return fn(*args, **kwargs)
         raise Unsupported(f'call of {getattr(fn, "__qualname__", repr(fn))} with symbolic args')
 
@@ -1087,6 +1119,8 @@ class VM:
         tm = self.type_models.get(cls)
         if tm is not None:
             return tm(self, args, kwargs)
+        if cls in REAL_WORLD:
+            raise Unsupported(f'call of {cls.__qualname__} (acts on the real system; no model registered)')
         if issubclass(cls, BaseException):
             init = self.static_lookup(cls, '__init__')
             if self.is_interp_callable(init):
@@ -1657,7 +1691,22 @@ class VM:
         if isinstance(a, SymText) or isinstance(b, SymText):
             return SymText([a, b])
         from . import models_str as ms
+        if t is ast.Mult and (isinstance(a, SInt) or isinstance(b, SInt)):
+            seq, cnt = (a, b) if isinstance(b, SInt) else (b, a)
+            if isinstance(seq, (str, bytes, bytearray, list, tuple, ms.SStr, SBytes)):
+                # sequence repeated a symbolic number of times: one path per feasible count
+                lo, hi = z3.bounds(cnt.e)
+                if lo is None or hi is None or hi - max(lo, 0) > 64:
+                    raise Unsupported('sequence repeated an unbounded symbolic number of times')
+                k = self.choose_int(cnt, lo, hi)
+                if isinstance(seq, ms.SStr):
+                    return ms.mk_str(ms.str_atoms(seq) * max(k, 0))
+                if isinstance(seq, SBytes):
+                    return mk_bytes(atoms_of(seq) * max(k, 0))
+                return seq * k
         if isinstance(a, ms.SStr) or isinstance(b, ms.SStr):
+            if t is ast.Mult and isinstance(b, int) and not isinstance(b, bool):
+                return ms.mk_str(ms.str_atoms(a) * max(b, 0))
             if t is ast.Add and isinstance(a, (ms.SStr, str)) and isinstance(b, (ms.SStr, str)):
                 return ms.mk_str(ms.str_atoms(a) + ms.str_atoms(b))
             raise Unsupported('str binop ' + t.__name__)
